@@ -393,6 +393,15 @@ def _c10_fixed():
             steps = [{"op": "adv", "to": 5000}] + [{"op": "timeout"} for _ in range(4)] + [{"op": "adv", "to": 5400}, {"op": "rs", "src": "fe80::a1"}] + \
                     [{"op": "timeout"} for _ in range(min(k, 4))] + [{"op": "adv", "to": 9000}]
             out.append({"cfg": dict(DEF["cfg"], mode=mode), "steps": steps, "src": "timeouts-reset-%d" % k})
+    # timeouts interleaved with INVALID messages: those neither consume nor refill the retry budget, nor restart the back-off
+    for mode in ("adv", "mon"):
+        for a in (1, 3, 4):
+            for b in (1, 2):
+                for c in (1, 2, 4, 5):
+                    steps = [{"op": "adv", "to": 5000}] + [{"op": "timeout"}] * a + \
+                            [{"op": "rs", "src": "fe80::bad", "hl": 1 + 7 * i} for i in range(b)] + [{"op": "timeout"}] * c + \
+                            [{"op": "adv", "to": 6500}, {"op": "rs", "src": "fe80::a1"}, {"op": "adv", "to": 9000}]
+                    out.append({"cfg": dict(DEF["cfg"], mode=mode), "steps": steps, "src": "timeouts-and-invalid-%d-%d-%d" % (a, b, c)})
     # the forwarding-state read fails: in a scheduled transmission, in the comparison with a foreign RA, in the initial RA
     # of a re-established session, in the final RA
     for cls in ("other", "sys"):
@@ -424,6 +433,39 @@ def _c10_fixed():
     return out
 
 
+def solicitation_floods():
+    """Large bursts: 64 .. 300 unicast solicitations inside one 500 ms window (every one owed its own RA), with a
+    multicast trigger (RS from ::) in the middle of them and the periodic RA falling due while they are pending."""
+    out = []
+    hosts = ["fe80::a1", "2001:db8::a2", "fd00::a3", "fe80::a4", "fe80::a5"]
+    for n in (63, 64, 65, 70, 130, 300):
+        for cfgv, t0 in ((DEF["cfg"], 5000), (FAST["cfg"], 5900), (UNI["cfg"], 5000)):
+            steps = [{"op": "adv", "to": t0}]
+            for i in range(n):
+                steps.append({"op": "rs", "src": hosts[i % len(hosts)], "nowait": True})
+            steps += [{"op": "wait"}, {"op": "rs", "src": "unspec"}, {"op": "adv", "to": t0 + 100}, {"op": "rs", "src": "unspec"},
+                      {"op": "adv", "to": t0 + 9000}, {"op": "rs", "src": "fe80::a1"}, {"op": "adv", "to": t0 + 14000}, {"op": "snap"}]
+            out.append({"cfg": dict(cfgv), "steps": steps, "src": "solicitation-flood"})
+    return out
+
+
+def fwd_read_failures():
+    """The forwarding state cannot be read (every error class) after it was read fine and has changed since: no RA may be
+    generated from a remembered value."""
+    out = []
+    for cls in ("sys", "other", "notexist", "perm"):
+        for trig in ([{"op": "rs", "src": "fe80::a1"}], [{"op": "rs", "src": "unspec"}], [{"op": "msg", "kind": "ra", "src": "fe80::b1", "variant": "same"}],
+                     [{"op": "msg", "kind": "ra", "src": "fe80::b1", "variant": "diffhl"}], [{"op": "scrape"}, {"op": "api"}]):
+            for flip in (True, False):
+                steps = [{"op": "adv", "to": 5000}, {"op": "rs", "src": "fe80::a1"}, {"op": "adv", "to": 6000}] + \
+                        ([{"op": "flip", "toggle": True}] if flip else []) + [{"op": "fwderr", "class": cls}] + trig + \
+                        [{"op": "adv", "to": 7000}, {"op": "fwderr", "class": ""}, {"op": "adv", "to": 9000}, {"op": "rs", "src": "fe80::a1"},
+                         {"op": "adv", "to": 12000}]
+                for cfgv in (DEF["cfg"], LEXP["cfg"]):
+                    out.append({"cfg": dict(cfgv), "steps": steps, "src": "fwd-read-failure"})
+    return out
+
+
 def _c08_fixed():
     """Transmit latency on the final RA itself (and on a transmission in flight at the stop): the write is held open
     across 0.5 .. 30 s of virtual time; Run may only return after it, and nothing may follow it."""
@@ -444,7 +486,8 @@ def _c08_fixed():
 PLANS["C08"]["fixed"] = _c08_fixed()
 PLANS["C10"]["fixed"] = _c10_fixed()
 PLANS["C10"]["ifis"] = ("vf0", "vf1")
-PLANS["C07"]["fixed"] = concurrent_write_failures()
+PLANS["C07"]["fixed"] = concurrent_write_failures() + solicitation_floods()
+PLANS["C06"]["fixed"] = solicitation_floods()
 
 
 L0 = {"cfg": {"min": 200000, "max": 600000, "life": 0}}
@@ -495,6 +538,9 @@ PLANS["C04"] = dict(
     assumptions=["the forwarding flag is the harness State stub; every read is logged with the value returned",
                  "'all other content unchanged' is checked as equality of a digest of the RA without its router lifetime"],
 )
+
+
+PLANS["C04"]["fixed"] = fwd_read_failures()
 
 
 def make(pid):
